@@ -53,6 +53,12 @@ def jobs(tier, seed):
         yield j
     yield {"bases": NESTED, "menu": [], "k": 0, "convs": ["call", "av"], "cats": CATS, "r1": False}
     n = 3 if tier == "quick" else 4
+    # deviation-free programs one and two sizes larger: the guard must also trip AFTER batches were scheduled
+    for g in GUARD_SIZES[tier]:
+        for size in (n + 1, n + 2):
+            for bases in progx.chunked(gen.base_programs(size), 300):
+                yield {"bases": bases, "menu": [], "k": 0, "convs": ["call"], "cats": GUARD_CATS,
+                       "r1": False, "opts": {"max_stack": g}}
     for g in GUARD_SIZES[tier]:
         for size in range(1, n + 1):
             for bases in progx.chunked(gen.base_programs(size), 100):
